@@ -55,10 +55,14 @@ Frac(num, den) ==
 RECURSIVE Digits(_, _, _, _)
 Digits(r, den, k, acc) == IF k = 0 THEN acc ELSE Digits((r * 10) % den, den, k - 1, acc * 10 + (r * 10) \div den)
 Scaled6(num, den) == (num \div den) * 1000000 + Digits(num % den, den, 6, 0)      \* num >= 0, den > 0
+Approx6(logged, expected) ==
+  LET s == Scaled6(Abs(expected[1]), expected[2])
+      l == IF logged[2] = -1 THEN Abs(logged[1]) ELSE Scaled6(Abs(logged[1]), logged[2])
+  IN Abs(l - s) <= 1 /\ (logged[1] < 0 <=> expected[1] < 0)
+(* exact when the expectation has a small denominator (the reconstruction is then unique);
+   when its denominator exceeds the reconstruction limit the harness logs either the
+   scaled value or some other small fraction within its tolerance: compare to 6 decimals *)
 RatMatches(logged, expected) ==
-  IF logged[2] = -1
-    THEN /\ expected[2] > 100000
-         /\ LET s == Scaled6(Abs(expected[1]), expected[2])
-            IN Abs(Abs(logged[1]) - s) <= 1 /\ (logged[1] < 0 <=> expected[1] < 0)
-    ELSE logged = expected
+  \/ logged = expected
+  \/ (expected[2] > 100000 /\ logged[2] # 0 /\ Approx6(logged, expected))
 =============================================================================
